@@ -171,6 +171,12 @@ def make_cases(ctx, n_gen, n_shipped, sched_len, max_total):
         names = sorted(series.keys())
         mt = max_total if w["np"] == 1 else min(max_total, 2)
         sched = random_schedule(rng, names, w["nb"], w["np"], mt, sched_len)
+        if p.get("stress_pair"):
+            # run the single use (and deletion) of a series with start data at order 0, then ask for it again
+            a, b = p["stress_pair"]
+            blk = (rng.randrange(w["nb"]), rng.randrange(w["nb"]))
+            z = (0,) * w["np"]
+            sched = [("tab", a, blk + z), ("tab", b, blk + z), ("tab", a, blk + z)] + sched
         obs = [observe(series, r) for r in sched]
         out.append(dict(prog=p, world=w, sched=sched, obs=obs, names=names))
     return out
@@ -195,7 +201,11 @@ def case_terms(case):
         seen.add(key)
         spec_items.append("obs_den_eqb %s (spec_obs %d alg cfg %s %s)" % (PG.cobs(o), SPEC_FUEL, PG.cstr(r[1]), PG.cidx(r[2])))
     t_spec = None
-    if spec_items:
+    # the product "U'† @ U'" of the shipped main algorithm is declared hermitian; with the stand-in solver of
+    # this harness the shortcut is valid in the sense of the specification (hypotheses herm_low / herm_diag of
+    # C09_sound) only without offdiag / custom diag: only then are the values compared with Interp as well
+    herm_valid = not (p.get("shipped") and p["name"] == "main" and (w["hasoff"] or w["diag_custom"]))
+    if spec_items and herm_valid:
         t_spec = "let alg := %s in let cfg := %s in forallb (fun b : bool => b) [%s]" % (alg, cfg, "; ".join(spec_items[:12]))
     return t_exec, t_spec
 
@@ -207,8 +217,8 @@ def describe(case):
 
 
 def tie_seriescomp(ctx):
-    n_gen = ctx.n(50, 1200)
-    n_ship = ctx.n(10, 200)
+    n_gen = ctx.n(120, 1200)
+    n_ship = ctx.n(20, 200)
     cases = make_cases(ctx, n_gen, n_ship, sched_len=ctx.n(10, 14), max_total=3)
     terms, owners = [], []
     dist = {"exn": 0, "value": 0, "zero": 0, "one": 0}
